@@ -546,3 +546,1007 @@ Section Engine.
     split; [reflexivity | apply map_length].
   Qed.
 End Engine.
+
+(* ================================================================== the recurrence engine model *)
+(* Proofs about the executable model of dateutil.rrule / rruleset in Schedule.v (calendar arithmetic,
+   one rule: ordered, duplicate-free, exactly the filtered set; rule sets; what the per-run
+   comparison with the real engine establishes). *)
+
+(* ---------------------------------------------------------------- Cal *)
+Ltac dm := Z.div_mod_to_equations.
+
+Lemma is_leap_true : forall y, is_leap y = true <-> ((y mod 4 = 0 /\ y mod 100 <> 0) \/ y mod 400 = 0).
+Proof. intro y. unfold is_leap. rewrite orb_true_iff, andb_true_iff, negb_true_iff, !Z.eqb_eq, Z.eqb_neq. tauto. Qed.
+
+Lemma year_len_pos : forall y, 365 <= year_len y <= 366.
+Proof. intro y. unfold year_len. destruct (is_leap y); lia. Qed.
+
+Lemma dby_succ : forall y, days_before_year (y + 1) = days_before_year y + year_len y.
+Proof.
+  intro y. unfold days_before_year, year_len.
+  replace (y + 1 - 1) with y by lia.
+  destruct (is_leap y) eqn:E.
+  - apply is_leap_true in E. dm. lia.
+  - assert (N : ~ ((y mod 4 = 0 /\ y mod 100 <> 0) \/ y mod 400 = 0)) by (rewrite <- is_leap_true; congruence).
+    dm. lia.
+Qed.
+
+Lemma year_of_bracket : forall n,
+  days_before_year (year_of n) < n <= days_before_year (year_of n) + year_len (year_of n).
+Proof.
+  intro n. unfold year_of.
+  set (n0 := n - 1).
+  set (n400 := n0 / 146097). set (r1 := n0 mod 146097).
+  set (n100 := r1 / 36524). set (r2 := r1 mod 36524).
+  set (n4 := r2 / 1461). set (r3 := r2 mod 1461).
+  set (n1 := r3 / 365).
+  assert (H1 : n0 = 146097 * n400 + r1 /\ 0 <= r1 < 146097) by (subst n400 r1; dm; lia).
+  assert (H2 : r1 = 36524 * n100 + r2 /\ 0 <= r2 < 36524) by (subst n100 r2; dm; lia).
+  assert (H3 : r2 = 1461 * n4 + r3 /\ 0 <= r3 < 1461) by (subst n4 r3; dm; lia).
+  assert (H4 : 0 <= r3 - 365 * n1 < 365) by (subst n1; dm; lia).
+  clearbody n400 r1 n100 r2 n4 r3 n1.
+  assert (B100 : 0 <= n100 <= 4) by lia.
+  assert (B4 : 0 <= n4 <= 24) by lia.
+  assert (B1 : 0 <= n1 <= 4) by lia.
+  unfold year_len.
+  destruct ((n1 =? 4) || (n100 =? 4)) eqn:E.
+  - (* last day of a leap cycle *)
+    replace (400 * n400 + 100 * n100 + 4 * n4 + n1 + 1 - 1) with (400 * n400 + 100 * n100 + 4 * n4 + n1) by lia.
+    set (y := 400 * n400 + 100 * n100 + 4 * n4 + n1).
+    assert (L : is_leap y = true).
+    { apply is_leap_true. subst y. apply orb_true_iff in E. rewrite !Z.eqb_eq in E.
+      destruct E as [E|E]; subst; dm; lia. }
+    rewrite L. unfold days_before_year. subst y.
+    apply orb_true_iff in E. rewrite !Z.eqb_eq in E.
+    destruct E as [E|E]; subst; dm; lia.
+  - apply orb_false_iff in E. rewrite !Z.eqb_neq in E. destruct E as [E1 E100].
+    set (y := 400 * n400 + 100 * n100 + 4 * n4 + n1 + 1).
+    unfold days_before_year.
+    replace (y - 1) with (400 * n400 + 100 * n100 + 4 * n4 + n1) by (subst y; lia).
+    destruct (is_leap y) eqn:L.
+    + dm. lia.
+    + assert (N : ~ ((y mod 4 = 0 /\ y mod 100 <> 0) \/ y mod 400 = 0)) by (rewrite <- is_leap_true; congruence).
+      subst y. dm. lia.
+Qed.
+
+Lemma dby_mono_le : forall y y', y <= y' -> days_before_year y <= days_before_year y'.
+Proof.
+  intros y y' H. replace y' with (y + (y' - y)) by lia.
+  assert (0 <= y' - y) by lia. generalize dependent (y' - y). clear y' H.
+  intros d Hd. pattern d. apply natlike_ind; [| |exact Hd].
+  - rewrite Z.add_0_r. lia.
+  - intros x Hx IH. replace (y + Z.succ x) with (y + x + 1) by lia. rewrite dby_succ.
+    pose proof (year_len_pos (y + x)). lia.
+Qed.
+
+Lemma dby_mono_lt : forall y y', y < y' -> days_before_year y + year_len y <= days_before_year y'.
+Proof.
+  intros y y' H. rewrite <- dby_succ. apply dby_mono_le. lia.
+Qed.
+
+(* the year is determined by the bracket *)
+Lemma year_unique : forall n y,
+  days_before_year y < n <= days_before_year y + year_len y -> year_of n = y.
+Proof.
+  intros n y H. pose proof (year_of_bracket n) as B.
+  destruct (Z.lt_trichotomy (year_of n) y) as [L|[E|G]]; [|exact E|].
+  - pose proof (dby_mono_lt _ _ L). lia.
+  - pose proof (dby_mono_lt _ _ G). lia.
+Qed.
+
+Lemma month_cases : forall m, 1 <= m <= 12 ->
+  m = 1 \/ m = 2 \/ m = 3 \/ m = 4 \/ m = 5 \/ m = 6 \/ m = 7 \/ m = 8 \/ m = 9 \/ m = 10 \/ m = 11 \/ m = 12.
+Proof. intros. lia. Qed.
+
+Ltac each_month H :=
+  destruct (month_cases _ H) as [?|[?|[?|[?|[?|[?|[?|[?|[?|[?|[?|?]]]]]]]]]]]; subst.
+
+Lemma dbm_succ : forall y m, 1 <= m <= 12 ->
+  days_before_month y (m + 1) = days_before_month y m + month_len y m.
+Proof.
+  intros y m H. unfold days_before_month, month_len.
+  each_month H; destruct (is_leap y); vm_compute; reflexivity.
+Qed.
+
+Lemma dbm_1 : forall y, days_before_month y 1 = 0.
+Proof. intro y. unfold days_before_month. vm_compute. reflexivity. Qed.
+
+Lemma dbm_13 : forall y, days_before_month y 13 = year_len y.
+Proof. intro y. unfold days_before_month, year_len. destruct (is_leap y); vm_compute; reflexivity. Qed.
+
+Lemma month_len_pos : forall y m, 28 <= month_len y m <= 31.
+Proof. intros. unfold month_len. destruct (m =? 2); [destruct (is_leap y); lia|]. destruct (_ || _); lia. Qed.
+
+Lemma dbm_mono : forall y m m', 1 <= m -> m < m' -> m' <= 13 ->
+  days_before_month y m + month_len y m <= days_before_month y m'.
+Proof.
+  intros y m m' H1 H2 H3. 
+  replace m' with (m + 1 + (m' - m - 1)) by lia.
+  assert (Hd : 0 <= m' - m - 1) by lia. assert (Hb : m + 1 + (m' - m - 1) <= 13) by lia.
+  generalize dependent (m' - m - 1). intros d Hd. pattern d. apply natlike_ind; [| |exact Hd].
+  - intros _. rewrite Z.add_0_r. rewrite dbm_succ by lia. lia.
+  - intros x Hx IH Hb. replace (m + 1 + Z.succ x) with (m + 1 + x + 1) by lia.
+    rewrite dbm_succ by lia. pose proof (month_len_pos y (m + 1 + x)). specialize (IH ltac:(lia)). lia.
+Qed.
+
+Lemma dbm_nonneg : forall y m, 1 <= m <= 13 -> 0 <= days_before_month y m.
+Proof.
+  intros y m H. pose proof (dbm_1 y). destruct (Z.eq_dec m 1) as [->|]; [lia|].
+  pose proof (dbm_mono y 1 m ltac:(lia) ltac:(lia) ltac:(lia)). pose proof (month_len_pos y 1). lia.
+Qed.
+
+Lemma dbm_le_year : forall y m, 1 <= m <= 12 -> days_before_month y m + month_len y m <= year_len y.
+Proof.
+  intros y m H. pose proof (dbm_13 y). pose proof (dbm_mono y m 13 ltac:(lia) ltac:(lia) ltac:(lia)). lia.
+Qed.
+
+Lemma month_of_bracket : forall y yd, 1 <= yd <= year_len y ->
+  1 <= month_of y yd <= 12 /\
+  days_before_month y (month_of y yd) < yd <= days_before_month y (month_of y yd) + month_len y (month_of y yd).
+Proof.
+  intros y yd H. unfold month_of.
+  pose proof (dbm_1 y) as D1. pose proof (dbm_13 y) as D13.
+  pose proof (dbm_succ y 1 ltac:(lia)) as S1. pose proof (dbm_succ y 2 ltac:(lia)) as S2.
+  pose proof (dbm_succ y 3 ltac:(lia)) as S3. pose proof (dbm_succ y 4 ltac:(lia)) as S4.
+  pose proof (dbm_succ y 5 ltac:(lia)) as S5. pose proof (dbm_succ y 6 ltac:(lia)) as S6.
+  pose proof (dbm_succ y 7 ltac:(lia)) as S7. pose proof (dbm_succ y 8 ltac:(lia)) as S8.
+  pose proof (dbm_succ y 9 ltac:(lia)) as S9. pose proof (dbm_succ y 10 ltac:(lia)) as S10.
+  pose proof (dbm_succ y 11 ltac:(lia)) as S11. pose proof (dbm_succ y 12 ltac:(lia)) as S12.
+  change (1 + 1) with 2 in *. change (2 + 1) with 3 in *. change (3 + 1) with 4 in *. change (4 + 1) with 5 in *.
+  change (5 + 1) with 6 in *. change (6 + 1) with 7 in *. change (7 + 1) with 8 in *. change (8 + 1) with 9 in *.
+  change (9 + 1) with 10 in *. change (10 + 1) with 11 in *. change (11 + 1) with 12 in *. change (12 + 1) with 13 in *.
+  repeat match goal with |- context [if ?a <=? ?b then _ else _] => destruct (Z.leb_spec a b) end; lia.
+Qed.
+
+Lemma month_unique : forall y yd m, 1 <= m <= 12 ->
+  days_before_month y m < yd <= days_before_month y m + month_len y m -> month_of y yd = m.
+Proof.
+  intros y yd m Hm H.
+  assert (Hy : 1 <= yd <= year_len y).
+  { pose proof (dbm_nonneg y m ltac:(lia)). pose proof (dbm_le_year y m Hm). lia. }
+  destruct (month_of_bracket y yd Hy) as [B1 B2].
+  destruct (Z.lt_trichotomy (month_of y yd) m) as [L|[E|G]]; [|exact E|].
+  - assert (X := dbm_mono y (month_of y yd) m). specialize (X ltac:(lia) L ltac:(lia)). lia.
+  - assert (X := dbm_mono y m (month_of y yd)). specialize (X ltac:(lia) G ltac:(lia)). lia.
+Qed.
+
+(* ---- the two directions of the calendar conversion *)
+Lemma civil_of_days : forall n y m d, civil_from_days n = (y, m, d) ->
+  1 <= m <= 12 /\ 1 <= d <= month_len y m /\ days_from_civil y m d = n /\
+  y = year_of n /\ 1 <= n - days_before_year y <= year_len y.
+Proof.
+  intros n y m d H. unfold civil_from_days in H. inversion H; subst; clear H.
+  pose proof (year_of_bracket n) as B.
+  destruct (month_of_bracket (year_of n) (n - days_before_year (year_of n)) ltac:(lia)) as [M1 M2].
+  unfold days_from_civil. repeat split; lia.
+Qed.
+
+Lemma days_of_civil : forall y m d, 1 <= m <= 12 -> 1 <= d <= month_len y m ->
+  civil_from_days (days_from_civil y m d) = (y, m, d).
+Proof.
+  intros y m d Hm Hd. unfold civil_from_days, days_from_civil.
+  assert (Hyd : 1 <= days_before_month y m + d <= year_len y).
+  { pose proof (dbm_nonneg y m ltac:(lia)). pose proof (dbm_le_year y m Hm). lia. }
+  assert (Ey : year_of (days_before_year y + days_before_month y m + d) = y) by (apply year_unique; lia).
+  rewrite Ey.
+  replace (days_before_year y + days_before_month y m + d - days_before_year y) with (days_before_month y m + d) by lia.
+  assert (Em : month_of y (days_before_month y m + d) = m) by (apply month_unique; lia).
+  rewrite Em. f_equal. lia.
+Qed.
+
+Lemma weekday_range : forall n, 0 <= weekday n <= 6.
+Proof. intro n. unfold weekday. dm. lia. Qed.
+
+(* ---------------------------------------------------------------- Rec1 *)
+(* ---- zrange *)
+Definition zr (lo : Z) (n : nat) : list Z := map (fun i => lo + Z.of_nat i) (seq 0 n).
+
+Lemma zrange_zr : forall lo len, zrange lo len = zr lo (Z.to_nat len).
+Proof. reflexivity. Qed.
+
+Lemma zr_S : forall lo n, zr lo (S n) = lo :: zr (lo + 1) n.
+Proof.
+  intros lo n. unfold zr. cbn [seq map]. f_equal; [lia|].
+  rewrite <- seq_shift, map_map. apply map_ext. intro i. lia.
+Qed.
+
+Lemma zr_app : forall a b lo, zr lo (a + b) = zr lo a ++ zr (lo + Z.of_nat a) b.
+Proof.
+  induction a as [|a IH]; intros b lo.
+  - cbn [plus]. unfold zr at 2. cbn [seq map app]. f_equal. lia.
+  - cbn [plus]. rewrite !zr_S, IH. cbn [app]. do 3 f_equal. lia.
+Qed.
+
+Lemma in_zrange : forall lo len n, In n (zrange lo len) <-> lo <= n < lo + len.
+Proof.
+  intros lo len n. unfold zrange. rewrite in_map_iff. split.
+  - intros (i & E & Hi). apply in_seq in Hi. lia.
+  - intro H. exists (Z.to_nat (n - lo)). split; [lia|]. apply in_seq. lia.
+Qed.
+
+Lemma zrange_app : forall lo a b, 0 <= a -> 0 <= b -> zrange lo (a + b) = zrange lo a ++ zrange (lo + a) b.
+Proof.
+  intros lo a b Ha Hb. rewrite !zrange_zr, Z2Nat.inj_add by lia. rewrite zr_app. do 2 f_equal. lia.
+Qed.
+
+Lemma zrange_nil : forall lo len, len <= 0 -> zrange lo len = [].
+Proof. intros lo len H. rewrite zrange_zr. replace (Z.to_nat len) with 0%nat by lia. reflexivity. Qed.
+
+Lemma zrange_sorted : forall len lo, StronglySorted Z.lt (zrange lo len).
+Proof.
+  intros len lo. rewrite zrange_zr. generalize (Z.to_nat len). intro n. revert lo.
+  induction n as [|n IH]; intro lo; [constructor|].
+  rewrite zr_S. constructor; [apply IH|].
+  apply Forall_forall. intros x Hx. rewrite <- (Nat2Z.id n), <- zrange_zr in Hx. apply in_zrange in Hx. lia.
+Qed.
+
+(* mapping over a shifted range *)
+Lemma map_zrange_shift : forall {A} (f g : Z -> A) a b len,
+  (forall i, 0 <= i < len -> f (a + i) = g (b + i)) -> map f (zrange a len) = map g (zrange b len).
+Proof.
+  intros A f g a b len H. unfold zrange. rewrite !map_map. apply map_ext_in.
+  intros i Hi. apply in_seq in Hi. apply H. lia.
+Qed.
+
+(* ---- month_days / period_days *)
+Lemma dfc_first : forall y m d, days_from_civil y m d = days_from_civil y m 1 + d - 1.
+Proof. intros. unfold days_from_civil. lia. Qed.
+
+Lemma dfc_next_month : forall y m, 1 <= m <= 12 ->
+  days_from_civil y m 1 + month_len y m =
+  if m =? 12 then days_from_civil (y + 1) 1 1 else days_from_civil y (m + 1) 1.
+Proof.
+  intros y m H. unfold days_from_civil. destruct (Z.eqb_spec m 12) as [->|N].
+  - rewrite dby_succ. rewrite dbm_1. pose proof (dbm_succ y 12 ltac:(lia)) as S. change (12 + 1) with 13 in S.
+    rewrite dbm_13 in S. lia.
+  - rewrite dbm_succ by lia. lia.
+Qed.
+
+Lemma info_of_civil : forall y m d, 1 <= m <= 12 -> 1 <= d <= month_len y m ->
+  info_of (days_from_civil y m d) =
+  (days_from_civil y m d, m, d, days_before_month y m + d, month_len y m, year_len y).
+Proof.
+  intros y m d Hm Hd. unfold info_of. rewrite days_of_civil by assumption.
+  replace (days_from_civil y m d - days_before_year y) with (days_before_month y m + d)
+    by (unfold days_from_civil; lia).
+  reflexivity.
+Qed.
+
+Lemma month_days_spec : forall y m, 1 <= m <= 12 ->
+  month_days y m = map info_of (zrange (days_from_civil y m 1) (month_len y m)).
+Proof.
+  intros y m Hm. unfold month_days.
+  apply map_zrange_shift. intros i Hi.
+  replace (days_from_civil y m 1 + i) with (days_from_civil y m (1 + i)) by (rewrite (dfc_first y m (1 + i)); lia).
+  rewrite info_of_civil by lia. rewrite (dfc_first y m (1 + i)). repeat f_equal; lia.
+Qed.
+
+Lemma year_days_spec : forall y,
+  flat_map (month_days y) [1; 2; 3; 4; 5; 6; 7; 8; 9; 10; 11; 12]
+  = map info_of (zrange (days_from_civil y 1 1) (year_len y)).
+Proof.
+  intro y. cbn [flat_map]. rewrite app_nil_r.
+  rewrite !month_days_spec by lia. rewrite <- !map_app. f_equal.
+  pose proof (dfc_next_month y 1 ltac:(lia)) as E1. pose proof (dfc_next_month y 2 ltac:(lia)) as E2.
+  pose proof (dfc_next_month y 3 ltac:(lia)) as E3. pose proof (dfc_next_month y 4 ltac:(lia)) as E4.
+  pose proof (dfc_next_month y 5 ltac:(lia)) as E5. pose proof (dfc_next_month y 6 ltac:(lia)) as E6.
+  pose proof (dfc_next_month y 7 ltac:(lia)) as E7. pose proof (dfc_next_month y 8 ltac:(lia)) as E8.
+  pose proof (dfc_next_month y 9 ltac:(lia)) as E9. pose proof (dfc_next_month y 10 ltac:(lia)) as E10.
+  pose proof (dfc_next_month y 11 ltac:(lia)) as E11.
+  cbn [Z.eqb Pos.eqb] in *.
+  change (1 + 1) with 2 in *. change (2 + 1) with 3 in *. change (3 + 1) with 4 in *. change (4 + 1) with 5 in *.
+  change (5 + 1) with 6 in *. change (6 + 1) with 7 in *. change (7 + 1) with 8 in *. change (8 + 1) with 9 in *.
+  change (9 + 1) with 10 in *. change (10 + 1) with 11 in *. change (11 + 1) with 12 in *.
+  rewrite <- E11, <- E10, <- E9, <- E8, <- E7, <- E6, <- E5, <- E4, <- E3, <- E2, <- E1.
+  pose proof (month_len_pos y 1). pose proof (month_len_pos y 2). pose proof (month_len_pos y 3).
+  pose proof (month_len_pos y 4). pose proof (month_len_pos y 5). pose proof (month_len_pos y 6).
+  pose proof (month_len_pos y 7). pose proof (month_len_pos y 8). pose proof (month_len_pos y 9).
+  pose proof (month_len_pos y 10). pose proof (month_len_pos y 11). pose proof (month_len_pos y 12).
+  rewrite <- !zrange_app by lia.
+  f_equal.
+  (* the twelve month lengths add up to the length of the year *)
+  pose proof (dbm_13 y) as D13. pose proof (dbm_1 y) as D1.
+  pose proof (dbm_succ y 1 ltac:(lia)). pose proof (dbm_succ y 2 ltac:(lia)). pose proof (dbm_succ y 3 ltac:(lia)).
+  pose proof (dbm_succ y 4 ltac:(lia)). pose proof (dbm_succ y 5 ltac:(lia)). pose proof (dbm_succ y 6 ltac:(lia)).
+  pose proof (dbm_succ y 7 ltac:(lia)). pose proof (dbm_succ y 8 ltac:(lia)). pose proof (dbm_succ y 9 ltac:(lia)).
+  pose proof (dbm_succ y 10 ltac:(lia)). pose proof (dbm_succ y 11 ltac:(lia)). pose proof (dbm_succ y 12 ltac:(lia)).
+  change (1 + 1) with 2 in *. change (2 + 1) with 3 in *. change (3 + 1) with 4 in *. change (4 + 1) with 5 in *.
+  change (5 + 1) with 6 in *. change (6 + 1) with 7 in *. change (7 + 1) with 8 in *. change (8 + 1) with 9 in *.
+  change (9 + 1) with 10 in *. change (10 + 1) with 11 in *. change (11 + 1) with 12 in *. change (12 + 1) with 13 in *.
+  lia.
+Qed.
+
+(* ---------------------------------------------------------------- Rec2 *)
+Definition plo (q : rule) (k : Z) : Z := fst (period q k).
+Definition phi (q : rule) (k : Z) : Z := snd (period q k).
+
+(* first day of the month with index mi = 12 * year + (month - 1) *)
+Definition mfirst (mi : Z) : Z := days_from_civil (mi / 12) (mi mod 12 + 1) 1.
+
+Lemma mfirst_succ : forall mi, mfirst (mi + 1) = mfirst mi + month_len (mi / 12) (mi mod 12 + 1).
+Proof.
+  intro mi. unfold mfirst.
+  rewrite (dfc_next_month (mi / 12) (mi mod 12 + 1)) by (dm; lia).
+  destruct (Z.eqb_spec (mi mod 12 + 1) 12) as [E|N].
+  - replace ((mi + 1) / 12) with (mi / 12 + 1) by (dm; lia).
+    replace ((mi + 1) mod 12 + 1) with 1 by (dm; lia). reflexivity.
+  - replace ((mi + 1) / 12) with (mi / 12) by (dm; lia).
+    replace ((mi + 1) mod 12 + 1) with (mi mod 12 + 1 + 1) by (dm; lia). reflexivity.
+Qed.
+
+Lemma mfirst_mono : forall a b, a <= b -> mfirst a <= mfirst b.
+Proof.
+  intros a b H. replace b with (a + (b - a)) by lia.
+  assert (Hd : 0 <= b - a) by lia. generalize dependent (b - a). clear b H.
+  intros d Hd. pattern d. apply natlike_ind; [| |exact Hd].
+  - rewrite Z.add_0_r. lia.
+  - intros x Hx IH. replace (a + Z.succ x) with (a + x + 1) by lia. rewrite mfirst_succ.
+    pose proof (month_len_pos ((a + x) / 12) ((a + x) mod 12 + 1)). lia.
+Qed.
+
+Lemma yfirst_succ : forall y, days_from_civil (y + 1) 1 1 = days_from_civil y 1 1 + year_len y.
+Proof. intro y. unfold days_from_civil. rewrite dby_succ, !dbm_1. lia. Qed.
+
+Lemma yfirst_mono : forall a b, a <= b -> days_from_civil a 1 1 <= days_from_civil b 1 1.
+Proof. intros a b H. unfold days_from_civil. rewrite !dbm_1. pose proof (dby_mono_le a b H). lia. Qed.
+
+Lemma period_lt : forall q k, plo q k < phi q k.
+Proof.
+  intros q k. unfold plo, phi, period.
+  destruct (q_freq q =? 0); cbn [fst snd].
+  - rewrite yfirst_succ. pose proof (year_len_pos (fst (start_ym q) + k * q_interval q)). lia.
+  - destruct (q_freq q =? 1); cbn [fst snd].
+    + match goal with |- context [month_len ?a ?b] => pose proof (month_len_pos a b) end. lia.
+    + destruct (q_freq q =? 2); cbn [fst snd]; lia.
+Qed.
+
+Lemma period_mono : forall q k, 1 <= q_interval q -> phi q k <= plo q (k + 1).
+Proof.
+  intros q k Hi. unfold plo, phi, period.
+  destruct (q_freq q =? 0); cbn [fst snd].
+  - apply yfirst_mono. nia.
+  - destruct (q_freq q =? 1); cbn [fst snd].
+    + set (mi := 12 * fst (start_ym q) + (snd (start_ym q) - 1) + k * q_interval q).
+      fold (mfirst mi). rewrite <- mfirst_succ.
+      replace (12 * fst (start_ym q) + (snd (start_ym q) - 1) + (k + 1) * q_interval q) with (mi + q_interval q) by (subst mi; lia).
+      fold (mfirst (mi + q_interval q)). apply mfirst_mono. lia.
+    + destruct (q_freq q =? 2); cbn [fst snd]; nia.
+Qed.
+
+Lemma period_mono_lt : forall q k j, 1 <= q_interval q -> k < j -> phi q k <= plo q j.
+Proof.
+  intros q k j Hi H. replace j with (k + 1 + (j - k - 1)) by lia.
+  assert (Hd : 0 <= j - k - 1) by lia. generalize dependent (j - k - 1). intros d Hd.
+  pattern d. apply natlike_ind; [| |exact Hd].
+  - rewrite Z.add_0_r. apply period_mono; assumption.
+  - intros x Hx IH. replace (k + 1 + Z.succ x) with (k + 1 + x + 1) by lia.
+    pose proof (period_mono q (k + 1 + x) Hi). pose proof (period_lt q (k + 1 + x)). lia.
+Qed.
+
+Lemma period_days_spec : forall q k,
+  period_days q k = map info_of (zrange (plo q k) (phi q k - plo q k)).
+Proof.
+  intros q k. unfold period_days, plo, phi, period.
+  destruct (q_freq q =? 0); cbn [fst snd].
+  - rewrite year_days_spec. rewrite yfirst_succ. do 2 f_equal. lia.
+  - destruct (q_freq q =? 1); cbn [fst snd].
+    + rewrite month_days_spec by (dm; lia). do 2 f_equal. lia.
+    + destruct (q_freq q =? 2); cbn [fst snd]; reflexivity.
+Qed.
+
+(* ---- well-formed rules *)
+Definition rule_ok (q : rule) : Prop :=
+  1 <= q_interval q /\ Forall (fun t => 0 <= t < 86400) (q_times q) /\ StronglySorted Z.lt (q_times q).
+
+Lemma insert_uniq_in : forall x y l, In y (insert_uniq x l) <-> y = x \/ In y l.
+Proof.
+  intros x y l. induction l as [|z r IH]; cbn [insert_uniq In]; [intuition|].
+  destruct (Z.ltb_spec x z); cbn [In]; [intuition|].
+  destruct (Z.eqb_spec x z); cbn [In]; [subst; intuition|]. rewrite IH. intuition.
+Qed.
+
+Lemma insert_uniq_sorted : forall x l, StronglySorted Z.lt l -> StronglySorted Z.lt (insert_uniq x l).
+Proof.
+  intros x l H. induction H as [|z r Hr IH Hz]; cbn [insert_uniq]; [repeat constructor|].
+  destruct (Z.ltb_spec x z).
+  - constructor; [constructor; assumption|]. constructor; [assumption|].
+    eapply Forall_impl; [|exact Hz]. intros; lia.
+  - destruct (Z.eqb_spec x z); [constructor; assumption|].
+    constructor; [assumption|]. apply Forall_forall. intros y Hy. apply insert_uniq_in in Hy.
+    rewrite Forall_forall in Hz. destruct Hy as [->|Hy]; [lia | apply Hz; assumption].
+Qed.
+
+Lemma sort_uniq_in : forall y l, In y (sort_uniq l) <-> In y l.
+Proof.
+  intros y l. unfold sort_uniq. induction l as [|x r IH]; cbn [fold_right In]; [tauto|].
+  rewrite insert_uniq_in, IH. intuition.
+Qed.
+
+Lemma sort_uniq_sorted : forall l, StronglySorted Z.lt (sort_uniq l).
+Proof.
+  intro l. unfold sort_uniq. induction l as [|x r IH]; cbn [fold_right]; [constructor|].
+  apply insert_uniq_sorted. assumption.
+Qed.
+
+Lemma in_range_spec : forall lo hi l x, in_range lo hi l = true -> In x l -> lo <= x <= hi.
+Proof.
+  intros lo hi l x H Hx. unfold in_range in H. rewrite forallb_forall in H.
+  specialize (H x Hx). lia.
+Qed.
+
+Lemma normalize_ok : forall r q, normalize r = Some q -> rule_ok q.
+Proof.
+  intros r q H. unfold normalize in H.
+  destruct (d_tz (r_dtstart r)) as [tz|]; [|discriminate].
+  destruct (r_interval r) as [| |iv| |]; try discriminate.
+  destruct (r_wkst r) as [[wk [n|]]|]; try discriminate.
+  destruct (civil_from_days (d_days (r_dtstart r))) as [[y0 m0] dd0].
+  match type of H with (match ?c with _ => _ end) = _ => destruct c as [cnt|]; [|discriminate] end.
+  match type of H with (match ?c with _ => _ end) = _ => destruct c as [unt|]; [|discriminate] end.
+  match type of H with (if ?c then _ else _) = _ => destruct c eqn:C; [|discriminate] end.
+  inversion H; subst; clear H.
+  rewrite !andb_true_iff in C.
+  destruct C as [[[[[[[[[[[[[C1 C2] C3] C4] C5] C6] C7] C8] C9] C10] C11] Ch] Cm] Cs].
+  unfold rule_ok. cbn [q_interval q_times]. split; [lia|]. split; [|apply sort_uniq_sorted].
+  apply Forall_forall. intros t Ht. rewrite sort_uniq_in in Ht.
+  apply in_flat_map in Ht. destruct Ht as (h & Hh & Ht).
+  apply in_flat_map in Ht. destruct Ht as (m & Hm & Ht).
+  apply in_map_iff in Ht. destruct Ht as (s & <- & Hs).
+  pose proof (in_range_spec _ _ _ _ Ch Hh). pose proof (in_range_spec _ _ _ _ Cm Hm).
+  pose proof (in_range_spec _ _ _ _ Cs Hs). lia.
+Qed.
+
+(* ---------------------------------------------------------------- Rec3 *)
+(* ---- sorted lists *)
+Lemma ss_app : forall l1 l2, StronglySorted Z.lt l1 -> StronglySorted Z.lt l2 ->
+  (forall x y, In x l1 -> In y l2 -> x < y) -> StronglySorted Z.lt (l1 ++ l2).
+Proof.
+  induction l1 as [|a r IH]; intros l2 H1 H2 H; cbn [app]; [assumption|].
+  inversion H1; subst. constructor.
+  - apply IH; auto. intros; apply H; cbn [In]; auto.
+  - apply Forall_app. split; [assumption|]. apply Forall_forall. intros y Hy. apply H; cbn [In]; auto.
+Qed.
+
+Lemma ss_filter : forall (f : Z -> bool) l, StronglySorted Z.lt l -> StronglySorted Z.lt (filter f l).
+Proof.
+  intros f l H. induction H as [|a r Hr IH Ha]; cbn [filter]; [constructor|].
+  destruct (f a); [|assumption]. constructor; [assumption|].
+  rewrite Forall_forall in *. intros y Hy. apply filter_In in Hy. apply Ha. tauto.
+Qed.
+
+Lemma ss_map : forall (f : Z -> Z) l, (forall x y, x < y -> f x < f y) ->
+  StronglySorted Z.lt l -> StronglySorted Z.lt (map f l).
+Proof.
+  intros f l Hf H. induction H as [|a r Hr IH Ha]; cbn [map]; [constructor|].
+  constructor; [assumption|]. rewrite Forall_forall in *. intros y Hy.
+  apply in_map_iff in Hy. destruct Hy as (x & <- & Hx). apply Hf, Ha, Hx.
+Qed.
+
+Lemma ss_firstn : forall n l, StronglySorted Z.lt l -> StronglySorted Z.lt (firstn n l).
+Proof.
+  induction n as [|n IH]; intros l H; cbn [firstn]; [constructor|].
+  destruct l as [|x r]; [constructor|]. inversion H; subst. constructor; [apply IH; assumption|].
+  rewrite Forall_forall in *. intros y Hy. apply H3. revert Hy. clear. revert r.
+  induction n as [|n IH]; intros r Hy; cbn [firstn] in Hy; [contradiction|].
+  destruct r; [contradiction|]. cbn [In] in *. destruct Hy; [auto | right; apply IH; assumption].
+Qed.
+
+Lemma in_firstn : forall (n : nat) (l : list Z) y, In y (firstn n l) -> In y l.
+Proof.
+  induction n as [|n IH]; intros l y H; cbn [firstn] in H; [contradiction|].
+  destruct l; [contradiction|]. cbn [In] in *. destruct H; [auto | right; apply IH; assumption].
+Qed.
+
+(* flat_map of sorted blocks whose ranges follow each other *)
+Lemma ss_flat_map : forall (f : Z -> list Z) (lo hi : Z -> Z) ks,
+  StronglySorted Z.lt ks ->
+  (forall k, StronglySorted Z.lt (f k)) ->
+  (forall k s, In s (f k) -> lo k <= s < hi k) ->
+  (forall k j, In k ks -> In j ks -> k < j -> hi k <= lo j) ->
+  StronglySorted Z.lt (flat_map f ks).
+Proof.
+  intros f lo hi ks Hk Hf Hb Hm. induction Hk as [|k r Hr IH Ha]; cbn [flat_map]; [constructor|].
+  apply ss_app; [apply Hf| |].
+  - apply IH. intros; apply Hm; cbn [In]; auto.
+  - intros x y Hx Hy. apply in_flat_map in Hy. destruct Hy as (j & Hj & Hy).
+    rewrite Forall_forall in Ha. specialize (Ha j Hj).
+    pose proof (Hb k x Hx). pose proof (Hb j y Hy).
+    specialize (Hm k j ltac:(cbn [In]; auto) ltac:(cbn [In]; auto) Ha). lia.
+Qed.
+
+(* ---- one period *)
+Definition occ_in (q : rule) (k : Z) (s : Z) : Prop :=
+  exists n t, plo q k <= n < phi q k /\ day_ok q (info_of n) = true /\ In t (q_times q) /\
+              s = n * US_DAY + t * 1000000 /\ stamp_ok q s = true.
+
+Lemma info_of_fst : forall n, exists m d yd ml yl, info_of n = (n, m, d, yd, ml, yl).
+Proof. intro n. unfold info_of. destruct (civil_from_days n) as [[y m] d]. repeat eexists. Qed.
+
+Lemma day_stamps_info : forall q n,
+  day_stamps q (info_of n) =
+  if day_ok q (info_of n) then map (fun t => n * US_DAY + t * 1000000) (q_times q) else [].
+Proof.
+  intros q n. unfold day_stamps. destruct (info_of_fst n) as (m & d & yd & ml & yl & E). rewrite E. reflexivity.
+Qed.
+
+Lemma chunk_eq : forall q k,
+  chunk q k = filter (stamp_ok q)
+                (flat_map (fun n => day_stamps q (info_of n)) (zrange (plo q k) (phi q k - plo q k))).
+Proof.
+  intros q k. unfold chunk. rewrite period_days_spec. f_equal.
+  generalize (zrange (plo q k) (phi q k - plo q k)). intro l.
+  induction l as [|x r IH]; cbn [map flat_map]; [reflexivity | rewrite IH; reflexivity].
+Qed.
+
+Lemma chunk_in : forall q k s, In s (chunk q k) <-> occ_in q k s.
+Proof.
+  intros q k s. rewrite chunk_eq, filter_In, in_flat_map. unfold occ_in. split.
+  - intros ((n & Hn & Hs) & Hok). apply in_zrange in Hn. rewrite day_stamps_info in Hs.
+    destruct (day_ok q (info_of n)) eqn:D; [|contradiction].
+    apply in_map_iff in Hs. destruct Hs as (t & <- & Ht). exists n, t. repeat split; auto; lia.
+  - intros (n & t & Hn & D & Ht & -> & Hok). split; [|assumption].
+    exists n. split; [apply in_zrange; lia|]. rewrite day_stamps_info, D. apply in_map_iff. eauto.
+Qed.
+
+Lemma occ_in_bounds : forall q k s, rule_ok q -> occ_in q k s -> plo q k * US_DAY <= s < phi q k * US_DAY.
+Proof.
+  intros q k s (Hi & Ht & Hs) (n & t & Hn & D & Hin & -> & Hok).
+  rewrite Forall_forall in Ht. specialize (Ht t Hin). unfold US_DAY. nia.
+Qed.
+
+Lemma day_stamps_sorted : forall q n, rule_ok q -> StronglySorted Z.lt (day_stamps q (info_of n)).
+Proof.
+  intros q n (Hi & Ht & Hs). rewrite day_stamps_info. destruct (day_ok q (info_of n)); [|constructor].
+  apply ss_map; [intros; lia | assumption].
+Qed.
+
+Lemma chunk_sorted : forall q k, rule_ok q -> StronglySorted Z.lt (chunk q k).
+Proof.
+  intros q k Hq. rewrite chunk_eq. apply ss_filter.
+  apply (ss_flat_map _ (fun n => n * US_DAY) (fun n => (n + 1) * US_DAY)).
+  - apply zrange_sorted.
+  - intro n. apply day_stamps_sorted. assumption.
+  - intros n s Hs. rewrite day_stamps_info in Hs. destruct (day_ok q (info_of n)); [|contradiction].
+    apply in_map_iff in Hs. destruct Hs as (t & <- & Hin). destruct Hq as (_ & Ht & _).
+    rewrite Forall_forall in Ht. specialize (Ht t Hin). unfold US_DAY. lia.
+  - intros a b _ _ Hab. unfold US_DAY. nia.
+Qed.
+
+(* ---- several periods *)
+Definition chunks (q : rule) (k : Z) (j : nat) : list Z := flat_map (chunk q) (zr k j).
+
+Lemma chunks_S : forall q k j, chunks q k (S j) = chunk q k ++ chunks q (k + 1) j.
+Proof. intros. unfold chunks. rewrite zr_S. reflexivity. Qed.
+
+Lemma in_zr : forall lo j n, In n (zr lo j) <-> lo <= n < lo + Z.of_nat j.
+Proof. intros lo j n. rewrite <- (Nat2Z.id j) at 1. rewrite <- zrange_zr. apply in_zrange. Qed.
+
+Lemma chunks_in : forall q k j s, In s (chunks q k j) <-> exists k', k <= k' < k + Z.of_nat j /\ occ_in q k' s.
+Proof.
+  intros q k j s. unfold chunks. rewrite in_flat_map. split.
+  - intros (k' & Hk & Hs). apply in_zr in Hk. apply chunk_in in Hs. eauto.
+  - intros (k' & Hk & Hs). exists k'. split; [apply in_zr; assumption | apply chunk_in; assumption].
+Qed.
+
+Lemma plo_mono : forall q k j, 1 <= q_interval q -> k <= j -> plo q k <= plo q j.
+Proof.
+  intros q k j Hi H. destruct (Z.eq_dec k j) as [->|N]; [lia|].
+  pose proof (period_mono_lt q k j Hi ltac:(lia)). pose proof (period_lt q k). lia.
+Qed.
+
+Lemma chunks_sorted : forall q k j, rule_ok q -> StronglySorted Z.lt (chunks q k j).
+Proof.
+  intros q k j Hq. unfold chunks.
+  apply (ss_flat_map _ (fun k => plo q k * US_DAY) (fun k => phi q k * US_DAY)).
+  - rewrite <- (Nat2Z.id j), <- zrange_zr. apply zrange_sorted.
+  - intro. apply chunk_sorted. assumption.
+  - intros k' s Hs. apply chunk_in in Hs. apply occ_in_bounds; assumption.
+  - intros a b _ _ Hab. destruct Hq as (Hi & _). pose proof (period_mono_lt q a b Hi Hab). unfold US_DAY. lia.
+Qed.
+
+(* ---- gen *)
+Definition take (need : option Z) (l : list Z) : list Z :=
+  match need with Some c => firstn (Z.to_nat c) l | None => l end.
+
+Lemma gen_spec : forall q H fuel B k need l b,
+  gen q H fuel B k need = Some (l, b) ->
+  exists j : nat,
+    l = take need (chunks q k j) /\
+    ((exists c, need = Some c /\ c <= Z.of_nat (List.length (chunks q k j)) /\ b = true) \/
+     (exists u, q_until q = Some u /\ u < plo q (k + Z.of_nat j) * US_DAY /\ b = true) \/
+     (q_until q = None /\ need = None /\ H <= plo q (k + Z.of_nat j) /\ b = false)).
+Proof.
+  intros q H fuel. induction fuel as [|f IH]; intros B k need l b G; cbn [gen] in G.
+  - (* no fuel: only the stop tests can answer *)
+    destruct (match need with Some c => c <=? 0 | None => false end) eqn:T1.
+    { inversion G; subst. destruct need as [c|]; [|discriminate]. exists 0%nat. split.
+      - cbn [take chunks zr seq map flat_map]. destruct (Z.to_nat c); reflexivity.
+      - left. exists c. cbn. repeat split; auto. lia. }
+    destruct (match q_until q with Some u => u <? fst (period q k) * US_DAY | None => false end) eqn:T2.
+    { inversion G; subst. destruct (q_until q) as [u|] eqn:U; [|discriminate]. exists 0%nat. split.
+      - destruct need; cbn [take chunks zr seq map flat_map]; [destruct (Z.to_nat z)|]; reflexivity.
+      - right; left. exists u. rewrite Z.add_0_r. fold (plo q k) in T2. repeat split; auto. lia. }
+    destruct (match q_until q, need with None, None => H <=? fst (period q k) | _, _ => false end) eqn:T3; [|discriminate].
+    inversion G; subst. destruct (q_until q) eqn:U; [discriminate|]. destruct need; [discriminate|].
+    exists 0%nat. split; [reflexivity|]. right; right. rewrite Z.add_0_r. fold (plo q k) in T3. repeat split; auto. lia.
+  - destruct (match need with Some c => c <=? 0 | None => false end) eqn:T1.
+    { inversion G; subst. destruct need as [c|]; [|discriminate]. exists 0%nat. split.
+      - cbn [take chunks zr seq map flat_map]. destruct (Z.to_nat c); reflexivity.
+      - left. exists c. cbn. repeat split; auto. lia. }
+    destruct (match q_until q with Some u => u <? fst (period q k) * US_DAY | None => false end) eqn:T2.
+    { inversion G; subst. destruct (q_until q) as [u|] eqn:U; [|discriminate]. exists 0%nat. split.
+      - destruct need; cbn [take chunks zr seq map flat_map]; [destruct (Z.to_nat z)|]; reflexivity.
+      - right; left. exists u. rewrite Z.add_0_r. fold (plo q k) in T2. repeat split; auto. lia. }
+    destruct (match q_until q, need with None, None => H <=? fst (period q k) | _, _ => false end) eqn:T3.
+    { inversion G; subst. destruct (q_until q) eqn:U; [discriminate|]. destruct need; [discriminate|].
+      exists 0%nat. split; [reflexivity|]. right; right. rewrite Z.add_0_r. fold (plo q k) in T3. repeat split; auto. lia. }
+    destruct (B <? 0); [discriminate|].
+    match type of G with context [gen q H f ?B' (k + 1) ?need'] =>
+      destruct (gen q H f B' (k + 1) need') as [[l' b']|] eqn:G'; [|discriminate] end.
+    inversion G; subst; clear G.
+    apply IH in G'. destruct G' as (j & El & Stop).
+    exists (S j). rewrite chunks_S.
+    replace (k + Z.of_nat (S j)) with (k + 1 + Z.of_nat j) by lia.
+    destruct need as [n|]; cbn [option_map take] in *.
+    + (* count *)
+      assert (Hn : 0 < n) by lia.
+      set (c := chunk q k) in *. set (rest := chunks q (k + 1) j) in *.
+      assert (Hlen : List.length (firstn (Z.to_nat n) c) = Nat.min (Z.to_nat n) (List.length c)) by apply firstn_length.
+      split.
+      * rewrite firstn_app. f_equal. rewrite El. f_equal. lia.
+      * destruct Stop as [(c0 & Ec & Hc & Hb)|[S2|S3]].
+        -- left. exists n. inversion Ec; subst. rewrite app_length. repeat split; auto. lia.
+        -- right; left. exact S2.
+        -- destruct S3 as (_ & X & _). discriminate.
+    + split; [rewrite El; reflexivity|].
+      destruct Stop as [(c0 & Ec & _)|[S2|S3]]; [discriminate | right; left; exact S2 | right; right; exact S3].
+Qed.
+
+(* ---------------------------------------------------------------- Rec4 *)
+(* an occurrence of the rule: in some period k >= 0 of the interval grid, on a day that passes every
+   filter, at one of the rule's times, not before dtstart and not after until *)
+Definition is_occ (q : rule) (s : Z) : Prop := exists k, 0 <= k /\ occ_in q k s.
+
+Lemma firstn_skipn_lt : forall (n : nat) (l : list Z) x y,
+  StronglySorted Z.lt l -> In x (firstn n l) -> In y l -> ~ In y (firstn n l) -> x < y.
+Proof.
+  intros n l x y Hs Hx Hy Hn.
+  rewrite <- (firstn_skipn n l) in Hy, Hs. apply in_app_or in Hy. destruct Hy as [Hy|Hy]; [contradiction|].
+  revert Hs Hx Hy. generalize (firstn n l) (skipn n l). clear. intros l1 l2 Hs Hx Hy.
+  induction l1 as [|a r IH]; [contradiction|].
+  cbn [app] in Hs. inversion Hs; subst. cbn [In] in Hx. destruct Hx as [->|Hx].
+  - rewrite Forall_forall in H2. apply H2. apply in_or_app. auto.
+  - apply IH; assumption.
+Qed.
+
+Theorem gen_exact : forall q H F B l b, rule_ok q ->
+  gen q H F B 0 (q_count q) = Some (l, b) ->
+  StronglySorted Z.lt l /\
+  (forall s, In s l -> is_occ q s) /\
+  (forall c, q_count q = Some c -> Z.of_nat (List.length l) <= Z.max c 0) /\
+  (forall s, is_occ q s ->
+     In s l \/
+     (exists c, q_count q = Some c /\ Z.of_nat (List.length l) = Z.max c 0 /\ forall x, In x l -> x < s) \/
+     (b = false /\ H * US_DAY <= s)).
+Proof.
+  intros q H F B l b Hq G. apply gen_spec in G. destruct G as (j & El & Stop).
+  rewrite Z.add_0_l in Stop.
+  pose proof (chunks_sorted q 0 j Hq) as Hall. set (all := chunks q 0 j) in *.
+  assert (Hsub : forall s, In s l -> In s all).
+  { intros s Hs. rewrite El in Hs. destruct (q_count q); cbn [take] in Hs; [eapply in_firstn; eauto | assumption]. }
+  split; [|split; [|split]].
+  - rewrite El. destruct (q_count q); cbn [take]; [apply ss_firstn|]; assumption.
+  - intros s Hs. apply Hsub in Hs. apply chunks_in in Hs. destruct Hs as (k' & Hk & Ho). exists k'. split; [lia | assumption].
+  - intros c Ec. rewrite El, Ec. cbn [take]. pose proof (firstn_le_length (Z.to_nat c) all). lia.
+  - intros s (k' & Hk' & Ho).
+    pose proof (occ_in_bounds q k' s Hq Ho) as Bs.
+    destruct Hq as (Hi & Hq2). 
+    destruct (Z.ltb_spec k' (Z.of_nat j)) as [Hlt|Hge].
+    + (* a scanned period *)
+      assert (Hin : In s all) by (apply chunks_in; exists k'; split; [lia | assumption]).
+      destruct (q_count q) as [c|] eqn:Ec; cbn [take] in El; [|left; rewrite El; assumption].
+      destruct (in_dec Z.eq_dec s l) as [Y|N]; [left; assumption|].
+      right; left. exists c. split; [reflexivity|]. rewrite El in N.
+      assert (Hlen : List.length l = Z.to_nat c).
+      { rewrite El. rewrite firstn_length. destruct (Nat.le_gt_cases (Z.to_nat c) (List.length all)); [lia|].
+        exfalso. apply N. rewrite firstn_all2 by lia. assumption. }
+      split; [lia|]. intros x Hx. rewrite El in Hx. eapply firstn_skipn_lt; eauto.
+    + (* a period that was not scanned: why did the scan stop? *)
+      assert (Hp : plo q (Z.of_nat j) <= plo q k') by (apply plo_mono; lia).
+      destruct Stop as [(c & Ec & Hc & Hb)|[(u & Eu & Hu & Hb)|(Eu & En & HH & Hb)]].
+      * right; left. exists c. rewrite Ec in El. cbn [take] in El. split; [assumption|].
+        split.
+        -- rewrite El, firstn_length. lia.
+        -- intros x Hx. apply Hsub in Hx. apply chunks_in in Hx. destruct Hx as (k2 & Hk2 & Ho2).
+           pose proof (occ_in_bounds q k2 x (conj Hi Hq2) Ho2).
+           pose proof (period_mono_lt q k2 k' Hi ltac:(lia)). unfold US_DAY in *. lia.
+      * exfalso. destruct Ho as (n & t & _ & _ & _ & _ & Hok). unfold stamp_ok in Hok. rewrite Eu in Hok.
+        unfold US_DAY in *. lia.
+      * right; right. split; [assumption|]. unfold US_DAY in *. lia.
+Qed.
+
+(* ---- the interval grid, declaratively: which days lie in some period k >= 0 *)
+Definition aligned (q : rule) (n : Z) : Prop :=
+  let '(y, m, _) := civil_from_days n in
+  let iv := q_interval q in
+  if q_freq q =? 0 then q_y0 q <= y /\ (y - q_y0 q) mod iv = 0
+  else if q_freq q =? 1 then
+    let mi := 12 * y + (m - 1) in let mi0 := 12 * q_y0 q + (q_m0 q - 1) in
+    mi0 <= mi /\ (mi - mi0) mod iv = 0
+  else if q_freq q =? 2 then
+    let s := q_d0 q - (weekday (q_d0 q) - q_wkst q) mod 7 in
+    s <= n /\ ((n - s) / 7) mod iv = 0
+  else q_d0 q <= n /\ (n - q_d0 q) mod iv = 0.
+
+Lemma year_range : forall y n, days_from_civil y 1 1 <= n < days_from_civil (y + 1) 1 1 <-> year_of n = y.
+Proof.
+  intros y n. rewrite yfirst_succ. unfold days_from_civil. rewrite dbm_1. split.
+  - intro H. apply year_unique. lia.
+  - intros <-. pose proof (year_of_bracket n). lia.
+Qed.
+
+Lemma month_range : forall mi n,
+  mfirst mi <= n < mfirst (mi + 1) <->
+  (let '(y, m, _) := civil_from_days n in 12 * y + (m - 1)) = mi.
+Proof.
+  intros mi n. rewrite mfirst_succ. unfold mfirst.
+  destruct (civil_from_days n) as [[y m] d] eqn:E.
+  destruct (civil_of_days _ _ _ _ E) as (Hm & Hd & Hn & Hy & Hyd).
+  assert (M12 : 1 <= mi mod 12 + 1 <= 12) by (dm; lia).
+  split.
+  - intro H.
+    assert (E2 : civil_from_days n = (mi / 12, mi mod 12 + 1, n - days_from_civil (mi / 12) (mi mod 12 + 1) 1 + 1)).
+    { rewrite <- (days_of_civil (mi / 12) (mi mod 12 + 1) (n - days_from_civil (mi / 12) (mi mod 12 + 1) 1 + 1)) by lia.
+      f_equal. rewrite (dfc_first _ _ (n - _ + 1)). lia. }
+    rewrite E in E2. inversion E2; subst. dm; lia.
+  - intros <-. replace ((12 * y + (m - 1)) / 12) with y by (dm; lia).
+    replace ((12 * y + (m - 1)) mod 12 + 1) with m by (dm; lia).
+    rewrite <- Hn. rewrite (dfc_first y m d). lia.
+Qed.
+
+Lemma aligned_iff : forall q n, 1 <= q_interval q ->
+  (aligned q n <-> exists k, 0 <= k /\ plo q k <= n < phi q k).
+Proof.
+  intros q n Hi. unfold aligned, plo, phi, period, start_ym, start_day. cbn [fst snd].
+  destruct (civil_from_days n) as [[y m] d] eqn:E.
+  destruct (civil_of_days _ _ _ _ E) as (Hm & Hd & Hn & Hy & Hyd).
+  destruct (q_freq q =? 0); cbn [fst snd].
+  - split.
+    + intros (H1 & H2). exists ((y - q_y0 q) / q_interval q). split; [apply Z.div_pos; lia|].
+      apply year_range. replace ((y - q_y0 q) / q_interval q * q_interval q) with (y - q_y0 q); [lia|].
+      pose proof (Z.div_mod (y - q_y0 q) (q_interval q) ltac:(lia)). lia.
+    + intros (k & Hk & H). apply year_range in H. rewrite <- Hy in H. rewrite H. split; [nia|].
+      replace (q_y0 q + k * q_interval q - q_y0 q) with (k * q_interval q) by lia. apply Z.mod_mul. lia.
+  - destruct (q_freq q =? 1); cbn [fst snd].
+    + set (mi0 := 12 * q_y0 q + (q_m0 q - 1)).
+      assert (R : forall mi, (mfirst mi <= n < mfirst mi + month_len (mi / 12) (mi mod 12 + 1)) <-> 12 * y + (m - 1) = mi).
+      { intro mi. rewrite <- mfirst_succ. pose proof (month_range mi n) as X. rewrite E in X. exact X. }
+      split.
+      * intros (H1 & H2). exists ((12 * y + (m - 1) - mi0) / q_interval q). split; [apply Z.div_pos; lia|].
+        apply R. pose proof (Z.div_mod (12 * y + (m - 1) - mi0) (q_interval q) ltac:(lia)). lia.
+      * intros (k & Hk & H). apply R in H. rewrite H. split; [nia|].
+        replace (mi0 + k * q_interval q - mi0) with (k * q_interval q) by lia. apply Z.mod_mul. lia.
+    + destruct (q_freq q =? 2); cbn [fst snd].
+      * set (s := q_d0 q - (weekday (q_d0 q) - q_wkst q) mod 7). split.
+        -- intros (H1 & H2). exists ((n - s) / 7 / q_interval q). split; [apply Z.div_pos; [apply Z.div_pos|]; lia|].
+           pose proof (Z.div_mod ((n - s) / 7) (q_interval q) ltac:(lia)) as X. rewrite H2 in X.
+           replace (7 * q_interval q * ((n - s) / 7 / q_interval q)) with (7 * ((n - s) / 7)) by lia.
+           clear X H2. clearbody s. pose proof (Z.div_mod (n - s) 7 ltac:(lia)). pose proof (Z.mod_pos_bound (n - s) 7 ltac:(lia)). lia.
+        -- intros (k & Hk & H). split; [nia|].
+           replace ((n - s) / 7) with (q_interval q * k); [rewrite Z.mul_comm; apply Z.mod_mul; lia|].
+           clearbody s. apply (Z.div_unique (n - s) 7 (q_interval q * k) (n - s - 7 * (q_interval q * k))); lia.
+      * split.
+        -- intros (H1 & H2). exists ((n - q_d0 q) / q_interval q). split; [apply Z.div_pos; lia|].
+           pose proof (Z.div_mod (n - q_d0 q) (q_interval q) ltac:(lia)). lia.
+        -- intros (k & Hk & H). split; [nia|]. replace (n - q_d0 q) with (k * q_interval q) by lia.
+           apply Z.mod_mul. lia.
+Qed.
+
+(* ---------------------------------------------------------------- Rec5 *)
+(* ---- one rule: ordered, duplicate-free, exactly the filtered set *)
+Theorem rr_exact : forall F H r q l b,
+  normalize r = Some q -> rr_occ F H r = Some (l, b) ->
+  StronglySorted Z.lt l /\
+  (forall s, In s l -> is_occ q s) /\
+  (forall c, q_count q = Some c -> Z.of_nat (List.length l) <= Z.max c 0) /\
+  (forall s, is_occ q s ->
+     In s l \/
+     (exists c, q_count q = Some c /\ Z.of_nat (List.length l) = Z.max c 0 /\ forall x, In x l -> x < s) \/
+     (b = false /\ H * US_DAY <= s)).
+Proof.
+  intros F H r q l b N R. unfold rr_occ in R. rewrite N in R.
+  eapply gen_exact; [eapply normalize_ok; eassumption | eassumption].
+Qed.
+
+Lemma ss_nodup : forall l, StronglySorted Z.lt l -> NoDup l.
+Proof.
+  intros l H. induction H as [|a r Hr IH Ha]; constructor; [|assumption].
+  intro Hin. rewrite Forall_forall in Ha. specialize (Ha a Hin). lia.
+Qed.
+
+(* ---- until enters only as an instant *)
+Definition with_r_until (u : option dt) (r : rrule_args) : rrule_args :=
+  mkRR (r_freq r) (r_dtstart r) (r_interval r) (r_wkst r) (r_count r) u (r_bysetpos r)
+       (r_bymonth r) (r_bymonthday r) (r_byyearday r) (r_byeaster r) (r_byweekno r) (r_byweekday r)
+       (r_byhour r) (r_byminute r) (r_bysecond r) (r_cache r).
+
+Theorem until_only_instant : forall r u u',
+  d_tz u <> None -> d_tz u' <> None -> inst_us u = inst_us u' ->
+  normalize (with_r_until (Some u') r) = normalize (with_r_until (Some u) r).
+Proof.
+  intros r u u' Hu Hu' E. unfold normalize, with_r_until.
+  cbn [r_dtstart r_interval r_wkst r_freq r_byweekno r_byyearday r_bymonthday r_byweekday r_byeaster
+       r_bymonth r_byhour r_byminute r_bysecond r_count r_until r_bysetpos].
+  destruct (d_tz u); [|congruence]. destruct (d_tz u'); [|congruence]. rewrite E. reflexivity.
+Qed.
+
+Corollary rr_occ_until_instant : forall F H r u u',
+  d_tz u <> None -> d_tz u' <> None -> inst_us u = inst_us u' ->
+  rr_occ F H (with_r_until (Some u') r) = rr_occ F H (with_r_until (Some u) r).
+Proof. intros. unfold rr_occ. rewrite (until_only_instant r u u') by assumption. reflexivity. Qed.
+
+(* ---- rule sets *)
+Lemma fold_insert_in : forall y l acc, In y (fold_right insert_uniq acc l) <-> In y l \/ In y acc.
+Proof.
+  intros y l acc. induction l as [|x r IH]; cbn [fold_right In]; [tauto|].
+  rewrite insert_uniq_in, IH. intuition.
+Qed.
+
+Lemma fold_insert_sorted : forall l acc, StronglySorted Z.lt acc -> StronglySorted Z.lt (fold_right insert_uniq acc l).
+Proof. intros l acc H. induction l as [|x r IH]; cbn [fold_right]; [assumption | apply insert_uniq_sorted; assumption]. Qed.
+
+Lemma union_all_in : forall y parts, In y (union_all parts) <-> exists p, In p parts /\ In y (fst p).
+Proof.
+  intros y parts. unfold union_all. induction parts as [|p r IH]; cbn [fold_right In].
+  - split; [contradiction | intros (p & [] & _)].
+  - rewrite fold_insert_in, IH. split.
+    + intros [H|(p' & Hp & Hy)]; [exists p; auto | exists p'; auto].
+    + intros (p' & [->|Hp] & Hy); [left; assumption | right; exists p'; auto].
+Qed.
+
+Lemma union_all_sorted : forall parts, StronglySorted Z.lt (union_all parts).
+Proof.
+  intro parts. unfold union_all. induction parts as [|p r IH]; cbn [fold_right]; [constructor|].
+  apply fold_insert_sorted. assumption.
+Qed.
+
+Lemma memz_in : forall x l, memz x l = true <-> In x l.
+Proof.
+  intros x l. unfold memz. rewrite existsb_exists. split.
+  - intros (y & Hy & E). apply Z.eqb_eq in E. subst. assumption.
+  - intro H. exists x. split; [assumption | apply Z.eqb_refl].
+Qed.
+
+Lemma lastz_max : forall l d x, StronglySorted Z.lt l -> In x l -> x <= lastz d l.
+Proof.
+  induction l as [|a r IH]; intros d x Hs Hx; [contradiction|].
+  cbn [lastz]. inversion Hs; subst. destruct Hx as [->|Hx]; [|apply IH; assumption].
+  destruct r as [|b r']; [cbn; lia|]. rewrite Forall_forall in H2.
+  specialize (IH x b H1 (or_introl eq_refl)). specialize (H2 b (or_introl eq_refl)). lia.
+Qed.
+
+(* "united with include and minus exclude": the result is ordered and duplicate-free; a stamp is in it
+   iff some included part yields it (before the horizon, unless every included part is complete) and
+   no excluded part does; and the excluded parts were computed up to a horizon beyond every result *)
+Theorem combine_spec : forall H parts l c,
+  combine H parts = Some (l, c) ->
+  exists incs excs H',
+    parts H true = Some incs /\ parts H' false = Some excs /\ H <= H' /\ c = forallb snd incs /\
+    StronglySorted Z.lt l /\
+    (forall s, In s l <-> ((exists p, In p incs /\ In s (fst p)) /\ (c = true \/ s < H * US_DAY) /\
+                           ~ (exists p, In p excs /\ In s (fst p)))) /\
+    (forall s, In s l -> s < H' * US_DAY).
+Proof.
+  intros H parts l c G. unfold combine in G.
+  destruct (parts H true) as [incs|] eqn:Ei; [|discriminate].
+  set (cpl := forallb snd incs) in *.
+  set (r1 := if cpl then union_all incs else filter (fun s => s <? H * US_DAY) (union_all incs)) in *.
+  set (H' := if cpl then Z.max H (lastz 0 r1 / US_DAY + 1) else H) in *.
+  destruct (parts H' false) as [excs|] eqn:Ee; [|discriminate].
+  injection G as El Ec. rewrite <- El, <- Ec. clear El Ec l c.
+  assert (S1 : StronglySorted Z.lt r1).
+  { subst r1. destruct cpl; [apply union_all_sorted | apply ss_filter, union_all_sorted]. }
+  assert (I1 : forall s, In s r1 <-> (exists p, In p incs /\ In s (fst p)) /\ (cpl = true \/ s < H * US_DAY)).
+  { intro s. subst r1. destruct cpl.
+    - rewrite union_all_in. intuition.
+    - rewrite filter_In, union_all_in. rewrite Z.ltb_lt. intuition; discriminate. }
+  exists incs, excs, H'. split; [reflexivity|]. split; [assumption|].
+  split; [subst H'; destruct cpl; lia|]. split; [reflexivity|].
+  split; [apply ss_filter; assumption|]. split.
+  - intro s. rewrite filter_In, negb_true_iff. rewrite <- (union_all_in s excs). rewrite <- (memz_in s (union_all excs)).
+    rewrite I1. destruct (memz s (union_all excs)).
+    + split; [intros [_ X]; discriminate | intros [_ [_ X]]; exfalso; apply X; reflexivity].
+    + split; [intros [[X Y] _]; split; [exact X | split; [exact Y | intro; discriminate]]
+             | intros [X [Y _]]; split; [split; assumption | reflexivity]].
+  - intros s Hs. apply filter_In in Hs. destruct Hs as [Hs _].
+    subst H'. destruct cpl eqn:C.
+    + pose proof (lastz_max r1 0 s S1 Hs) as L.
+      assert (s / US_DAY <= lastz 0 r1 / US_DAY) by (apply Z.div_le_mono; [unfold US_DAY|]; lia).
+      pose proof (Z.div_mod s US_DAY ltac:(unfold US_DAY; lia)).
+      pose proof (Z.mod_pos_bound s US_DAY ltac:(unfold US_DAY; lia)).
+      unfold US_DAY in *. nia.
+    + apply I1 in Hs. destruct Hs as [_ [X|X]]; [discriminate | assumption].
+Qed.
+
+(* ---- what the per-run check [engine_ok] establishes *)
+Lemma dt_eqb_eq : forall a b, dt_eqb a b = true -> a = b.
+Proof.
+  intros [d1 u1 t1] [d2 u2 t2] H. unfold dt_eqb in H. cbn [d_days d_us d_tz] in H.
+  rewrite !andb_true_iff, !Z.eqb_eq in H. destruct H as [[-> ->] T].
+  f_equal. destruct t1, t2; cbn in T; try discriminate; [apply Z.eqb_eq in T; subst|]; reflexivity.
+Qed.
+
+Lemma list_eqb_dt_eq : forall l1 l2, list_eqb dt_eqb l1 l2 = true -> l1 = l2.
+Proof.
+  induction l1 as [|a r IH]; intros [|b r'] H; cbn [list_eqb] in H; try discriminate; [reflexivity|].
+  apply andb_true_iff in H. destruct H as [H1 H2]. f_equal; [apply dt_eqb_eq; assumption | apply IH; assumption].
+Qed.
+
+Theorem engine_ok_sound : forall rs stream fin tz l c,
+  engine_ok rs stream fin = true ->
+  top_tz rs = Some tz -> in_fragment tz rs = true ->
+  rs_occ ENGINE_FUEL (max_day 0 stream) tz rs = Some (l, c) ->
+  stream = map (dt_of_stamp tz) (firstn (List.length stream) l) /\
+  (fin = true -> c = true -> List.length l = List.length stream).
+Proof.
+  intros rs stream fin tz l c H T Fr R. unfold engine_ok in H. rewrite T, Fr, R in H.
+  apply andb_true_iff in H. destruct H as [H1 H2]. split; [apply list_eqb_dt_eq; assumption|].
+  intros -> ->. cbn [andb] in H2. apply Nat.eqb_eq in H2. assumption.
+Qed.
+
+(* ---------------------------------------------------------------- Rec6 *)
+(* ---- the parts of a rule set, named *)
+Definition part_of (F : nat) (tz : Z) (H : Z) (c : call) : option (list Z * bool) :=
+  match c with
+  | CRule _ x => if option_eqb Z.eqb (d_tz (r_dtstart x)) (Some tz) then rr_occ F H x else None
+  | CSet _ s => rs_occ F H tz s
+  | CDate _ d => if option_eqb Z.eqb (d_tz d) (Some tz) && (0 <=? d_us d) && (d_us d <? US_DAY)
+                 then Some ([d_days d * US_DAY + d_us d], true) else None
+  end.
+
+Fixpoint parts_of (F : nat) (tz : Z) (H : Z) (want_incl : bool) (calls : list call)
+  : option (list (list Z * bool)) :=
+  match calls with
+  | [] => Some []
+  | c :: r =>
+    if Bool.eqb (is_incl (call_method c)) want_incl
+    then match part_of F tz H c, parts_of F tz H want_incl r with
+         | Some p, Some ps => Some (p :: ps)
+         | _, _ => None
+         end
+    else parts_of F tz H want_incl r
+  end.
+
+Lemma combine_ext : forall H f g, (forall H' w, f H' w = g H' w) -> combine H f = combine H g.
+Proof. intros H f g E. unfold combine. rewrite E. destruct (g H true); [|reflexivity]. rewrite E. reflexivity. Qed.
+
+Theorem rs_occ_unfold : forall F H tz c calls,
+  rs_occ F H tz (RS c calls) = combine H (fun H' w => parts_of F tz H' w calls).
+Proof.
+  intros F H tz c calls. cbn [rs_occ]. apply combine_ext. intros H' w.
+  induction calls as [|x r IH]; [reflexivity|].
+  cbn [parts_of]. rewrite <- IH. destruct x; reflexivity.
+Qed.
+
+(* ---- rows of a recipe are the first n values of the model's recurrence set *)
+Lemma firstn_map_firstn : forall {A B} (f : A -> B) n m (l : list A), (n <= m)%nat ->
+  firstn n (map f (firstn m l)) = map f (firstn n l).
+Proof.
+  intros A B f n m l H. rewrite firstn_map. f_equal. rewrite firstn_firstn. f_equal. lia.
+Qed.
+
+Theorem rows_are_model_recurrence : forall via memo P now kw n stream rs vs tz l c,
+  run via memo P now kw (MCount n) stream = Ok (rs, vs) ->
+  engine_ok rs stream false = true ->
+  top_tz rs = Some tz -> in_fragment tz rs = true ->
+  rs_occ ENGINE_FUEL (max_day 0 stream) tz rs = Some (l, c) ->
+  exists p, vs = map (emit_next p) (map (dt_of_stamp tz) (firstn n l)) /\ List.length vs = n.
+Proof.
+  intros via memo P now kw n stream rs vs tz l c R E T Fr O.
+  destruct (run_sound _ _ _ _ _ _ _ _ _ R) as (kw' & a & r & p & sp & _ & _ & _ & _ & Hr).
+  destruct (engine_ok_sound _ _ _ _ _ _ E T Fr O) as [Es _].
+  exists p. unfold rows in Hr. destruct (Nat.ltb_spec (List.length stream) n); [discriminate|].
+  inversion Hr; subst vs. split.
+  - f_equal. rewrite Es at 1. apply firstn_map_firstn. assumption.
+  - rewrite map_length, firstn_length. lia.
+Qed.
